@@ -15,7 +15,8 @@
    "no local modification so far".  Cas/Cache.v: cachingDirectoryFetcher.
    Predicates: Cas/Spec.v ([p_step] is what Corr.v evaluates on the code). *)
 From VF Require Import Cas.Model Cas.Spec Cas.Cache Cas.ProofsLeaf Cas.ProofsInv Cas.ProofsStep
-  Cas.ProofsFaithful Cas.ProofsTrace Cas.CacheProofs Cas.ProofsTop Cas.Hardlink Cas.HardlinkProofs.
+  Cas.ProofsFaithful Cas.ProofsTrace Cas.CacheProofs Cas.ProofsTop Cas.Hardlink Cas.HardlinkProofs
+  Cas.ProofsIdent.
 Open Scope string_scope.
 Open Scope nat_scope.
 Open Scope list_scope.
@@ -167,6 +168,100 @@ Print Assumptions cas_leaf_contents_stable.
 Theorem monitor_holds_on_model : forall c b ops, trace_ok c b (trace c b init ops) = true.
 Proof. exact trace_ok_all. Qed.
 Print Assumptions monitor_holds_on_model.
+
+(* ---- the identity given to the stateless handle allocator ------------------------------ *)
+
+(* stateless_handle_allocating_cas_file_factory.go creates every CAS backed
+   file through StatelessHandleAllocator.New(&casFileID{digest, executable});
+   the handle allocators make the inode number / file handle from the bytes
+   casFileID.WriteTo writes and the NFSv4 one hands out the leaf it already
+   has for them.  [file_identity key executable] are these bytes
+   (ByteSliceID = uvarint length prefix + key, then one byte for the bit);
+   they determine the key and the bit, for all keys. *)
+Theorem handle_identity_injective : forall k1 x1 k2 x2,
+  file_identity k1 x1 = file_identity k2 x2 -> k1 = k2 /\ x1 = x2.
+Proof. exact file_identity_inj_l. Qed.
+Print Assumptions handle_identity_injective.
+
+(* ByteSliceID is a prefix code ("no ambiguity exists if allocators are
+   nested"): whatever follows, the slice can be read back. *)
+Theorem handle_identity_prefix_free : forall k1 k2 r1 r2,
+  byte_slice_id k1 ++ r1 = byte_slice_id k2 ++ r2 -> k1 = k2 /\ r1 = r2.
+Proof. exact byte_slice_id_prefix. Qed.
+Print Assumptions handle_identity_prefix_free.
+
+(* Digest.GetKey(KeyWithInstance), "<function>-<hash>-<size>-<instance>",
+   separates the digests NewDigestFromProto accepts ... *)
+Theorem digest_key_injective : forall fn inst d1 d2, valid_digest d1 -> valid_digest d2 ->
+  digest_key fn inst d1 = digest_key fn inst d2 -> d1 = d2.
+Proof. exact digest_key_inj_l. Qed.
+Print Assumptions digest_key_injective.
+
+(* ... and after any history every CAS backed file has such a digest. *)
+Theorem cas_leaves_have_valid_digests : forall c b ops l lf d x,
+  nth_error (st_leaves (run c b init ops)) l = Some lf -> l_kind lf = KCas d x -> valid_digest d.
+Proof. exact cas_leaves_valid_l. Qed.
+Print Assumptions cas_leaves_have_valid_digests.
+
+(* Tokens ([model_idents]: index of a leaf's identity among the distinct
+   identities, what Corr.v compares with the allocator of the harness):
+   every CAS backed file has one, and after any history two of them are
+   equal exactly when digest and executable bit are. *)
+Theorem handle_identity_total : forall fn inst s l lf d x,
+  nth_error (st_leaves s) l = Some lf -> l_kind lf = KCas d x ->
+  exists t, aget l (fst (model_idents fn inst s)) = Some t.
+Proof. exact model_token_total_l. Qed.
+Print Assumptions handle_identity_total.
+
+Theorem handle_identity_separates_files : forall fn inst c b ops l1 l2 lf1 lf2 d1 x1 d2 x2 t1 t2,
+  let sf := run c b init ops in
+  nth_error (st_leaves sf) l1 = Some lf1 -> l_kind lf1 = KCas d1 x1 ->
+  nth_error (st_leaves sf) l2 = Some lf2 -> l_kind lf2 = KCas d2 x2 ->
+  aget l1 (fst (model_idents fn inst sf)) = Some t1 ->
+  aget l2 (fst (model_idents fn inst sf)) = Some t2 ->
+  (t1 = t2 <-> d1 = d2 /\ x1 = x2).
+Proof. exact model_tokens_separate_l. Qed.
+Print Assumptions handle_identity_separates_files.
+
+(* The predicate Corr.v evaluates on the implementation's trace and the
+   tokens its handle allocator recorded ([p_ident] after every [p_step]: no
+   two known CAS backed files of different digest or executable bit share a
+   token, C17:handle-identity-shared-by-different-files; equal files have
+   equal tokens, C17:handle-identity-not-stateless) holds on every trace of
+   the model with the model's tokens. *)
+Theorem handle_identity_monitor_holds_on_model : forall fn inst c b ops,
+  ident_trace_ok c b (fst (model_idents fn inst (run c b init ops))) (trace c b init ops) = true.
+Proof. exact ident_trace_ok_all. Qed.
+Print Assumptions handle_identity_monitor_holds_on_model.
+
+(* Non-vacuity: one blob under both executable bits and once more.  The
+   three leaves get tokens 0, 1, 0; the monitor learns all three from the
+   listing; an identity that forgets the bit, or one that is not stateless,
+   is rejected. *)
+Definition idx_blob : digest := ("0000000000000000000000000000f000", 6%Z).
+Definition idx_root : digest := ("0000000000000000000000000000d000", 10%Z).
+Definition idx_cas : cas :=
+  [(idx_root, mkMsg [mkF "tool" (Some idx_blob) true; mkF "tool.txt" (Some idx_blob) false;
+                    mkF "copy" (Some idx_blob) true] [] [])].
+Definition idx_ops : list op := [OMerge 0 idx_root []; OReadDir 0 true []].
+
+Example handle_identity_bytes :
+  file_identity (digest_key "3" "inst" idx_blob) true
+  = (41 :: bytes_of "3-0000000000000000000000000000f000-6-inst" ++ [1])%N.
+Proof. vm_compute. reflexivity. Qed.
+
+Example handle_identity_nonvacuous :
+  model_idents "3" "inst" (run idx_cas [] init idx_ops)
+  = ([(0, 0%N); (1, 1%N); (2, 0%N)],
+     [file_identity (digest_key "3" "inst" idx_blob) true;
+      file_identity (digest_key "3" "inst" idx_blob) false]) /\
+  ident_trace_ok idx_cas [] [(0, 0%N); (1, 1%N); (2, 0%N)] (trace idx_cas [] init idx_ops) = true /\
+  ident_trace_ok idx_cas [] [(0, 0%N); (1, 0%N); (2, 0%N)] (trace idx_cas [] init idx_ops) = false /\
+  ident_trace_ok idx_cas [] [(0, 0%N); (1, 1%N); (2, 2%N)] (trace idx_cas [] init idx_ops) = false /\
+  (let known := [(2, KCas idx_blob true); (1, KCas idx_blob false); (0, KCas idx_blob true)] in
+   ident_new [(0, 0%N); (1, 0%N); (2, 0%N)] known known = "C17:handle-identity-shared-by-different-files" /\
+   ident_new [(0, 0%N); (1, 1%N); (2, 2%N)] known known = "C17:handle-identity-not-stateless").
+Proof. vm_compute. repeat split; reflexivity. Qed.
 
 (* ---- cache_key_separation ------------------------------------------------------------ *)
 
